@@ -568,13 +568,17 @@ func cmdCheck(args []string) {
 
 	if len(crashed) > 0 {
 		handled := false
-		if spec.DeathIsViolation {
+		if true { // a dead or hung worker is a violation candidate for every check
 			// A dead worker is a crash of the process under test. Confirm each
 			// one by running the in-flight run index alone in a fresh process.
 			handled = true
+			confirmed := 0
 			for _, r := range results {
 				if r.aggOK {
 					continue
+				}
+				if confirmed >= 3 {
+					continue // enough confirmed deaths to report; do not spend more time
 				}
 				var idx int
 				var rseed uint64
@@ -591,7 +595,7 @@ func cmdCheck(args []string) {
 				cmd := exec.Command(bin, "-test.run", "TestWorker", "-test.timeout", "30m")
 				cmd.Dir = verifDir
 				cmd.Env = append(os.Environ(), "VERIF_CHECK="+id, "VERIF_TIER="+*tier, "VERIF_SEED="+strconv.FormatUint(seed, 10),
-					"VERIF_FROM="+strconv.Itoa(idx), "VERIF_TO="+strconv.Itoa(idx+1), "VERIF_STRIDE=1", "VERIF_OUT="+out, "VERIF_REPLAY_DIR="+replayDir)
+					"VERIF_FROM="+strconv.Itoa(idx), "VERIF_TO="+strconv.Itoa(idx+1), "VERIF_STRIDE=1", "VERIF_OUT="+out, "VERIF_REPLAY_DIR="+replayDir, "VERIF_RUN_LIMIT_S=45")
 				cout, _ := cmd.CombinedOutput()
 				if _, err := os.Stat(out); err == nil {
 					fmt.Printf("INFRA: worker death during index %d did not reproduce when the run was repeated alone (%s)\n", idx, reason)
@@ -605,7 +609,12 @@ func cmdCheck(args []string) {
 					"rendering": map[string]any{"first_death": reason, "confirmed_death": reason2, "note": "the worker process died while executing this run; replay regenerates the tape from run_seed and counts a repeated death as reproduction"}}
 				b, _ := json.MarshalIndent(rf, "", " ")
 				os.WriteFile(rp, b, 0o644)
-				total.Violations = append(total.Violations, foundViolation{Property: id, Class: "process-death/" + firstLine(reason2), Message: "the worker process died: " + reason2, Seed: rseed, Index: idx, Replay: rp})
+				confirmed++
+				cls := "process-death/" + firstLine(reason2)
+				if strings.HasPrefix(reason2, "hang:") {
+					cls = "hang/run-did-not-return"
+				}
+				total.Violations = append(total.Violations, foundViolation{Property: id, Class: cls, Message: "the worker process died: " + reason2, Seed: rseed, Index: idx, Replay: rp})
 			}
 		}
 		if h := crashHandlers[id]; h != nil && !handled {
@@ -683,6 +692,9 @@ func cmdCheck(args []string) {
 // deathReason extracts the fatal error / panic line of a dead worker's log.
 func deathReason(log string) string {
 	for _, l := range strings.Split(log, "\n") {
+		if strings.HasPrefix(l, "WATCHDOG:") {
+			return "hang: a run did not return (a task is stuck where the simulator cannot see it, e.g. on a mutex)"
+		}
 		if strings.HasPrefix(l, "fatal error:") || strings.HasPrefix(l, "panic:") || strings.Contains(l, "signal SIGSEGV") {
 			return strings.TrimSpace(l)
 		}
